@@ -45,8 +45,10 @@ func checkC05(c c05Case) (Outcome, error) {
 		cls = append(cls, "n<=4096")
 	case n <= 1<<17:
 		cls = append(cls, "n<=2^17")
+	case n <= 1<<21:
+		cls = append(cls, "n<=2^21")
 	default:
-		cls = append(cls, "n>2^17")
+		cls = append(cls, "n>2^21")
 	}
 	var gp, gq float64
 	if c.Bytes && n%8 == 0 {
@@ -55,8 +57,16 @@ func checkC05(c c05Case) (Outcome, error) {
 	} else {
 		gp, gq = rn.DiscreteFourierTransformTest(bits)
 	}
-	_, _, lo, amb := ref.DFTTest(bits)
 	cnt := n/2 - 1
+	var lo, amb int
+	if c.Seq.Family == "transition" && n > 1<<21 {
+		// sizes beyond what a reference transform can do: the spectrum of a single-transition sequence is a
+		// difference of two geometric sums and is evaluated in closed form per bin
+		cls = append(cls, "analytic-oracle")
+		lo, amb = ref.TransitionSpectrumCount(n, c.Seq.Pos[0], N, cnt, math.Sqrt(2.995732274*float64(n)), 1e-7)
+	} else {
+		_, _, lo, amb = ref.DFTTest(bits)
+	}
 	out := Outcome{NonTrivial: lo > 0 && lo+amb < cnt, Classes: cls}
 	if amb > 0 {
 		out.Classes = append(out.Classes, "ambiguous-bins")
@@ -123,6 +133,24 @@ func TestC05Sweep(t *testing.T) {
 	for _, n := range big {
 		cases = append(cases, c05Case{Seq: gen.Seq{Family: "uniform", N: n, Seed: uint64(n)}})
 		cases = append(cases, c05Case{Seq: gen.Seq{Family: "tone", N: n, A: n / 7}})
+	}
+	enumerate(t, "C05", cases, checkC05)
+}
+
+// TestC05Huge (thorough): the upper end of the stated range, n = 10^8 (padded to 2^27) and n = 2^27 exactly,
+// on single-transition sequences whose spectrum is known in closed form; ~6 GB, about a minute per case.
+func TestC05Huge(t *testing.T) {
+	ns := []int{100000000, 1 << 27}
+	if v := envInt("VERIF_N", 0); v > 0 {
+		ns = []int{v}
+	}
+	var cases []c05Case
+	for _, n := range ns {
+		cases = append(cases, c05Case{Seq: gen.Seq{Family: "transition", N: n, A: 1, Pos: []int{n / 3}}})
+	}
+	// the same oracle at sizes where the transform reference exists too (cross-check of the closed form)
+	for _, n := range []int{1<<21 + 1, 3000000} {
+		cases = append(cases, c05Case{Seq: gen.Seq{Family: "transition", N: n, A: 0, Pos: []int{n / 5}}})
 	}
 	enumerate(t, "C05", cases, checkC05)
 }
